@@ -483,7 +483,7 @@ hiya ouch [1][2].
   }
 }
 
-#[derive(Debug, PartialEq, Eq, PartialOrd, Ord)]
+#[derive(Debug, Clone, PartialEq, Eq, PartialOrd, Ord)]
 struct TypeIncompatibilityNode {
   lower_reason: Reason,
   lower_description: Description,
@@ -491,7 +491,7 @@ struct TypeIncompatibilityNode {
   upper_description: Description,
 }
 
-#[derive(Debug, PartialEq, Eq, PartialOrd, Ord)]
+#[derive(Debug, Clone, PartialEq, Eq, PartialOrd, Ord)]
 enum IncompatibilityNode {
   Type(Box<TypeIncompatibilityNode>),
   FunctionParametersArity(usize, usize),
@@ -499,7 +499,7 @@ enum IncompatibilityNode {
   TypeParametersArity(usize, usize),
 }
 
-#[derive(Debug, PartialEq, Eq, PartialOrd, Ord)]
+#[derive(Debug, Clone, PartialEq, Eq, PartialOrd, Ord)]
 pub struct StackableError {
   rev_stack: Vec<IncompatibilityNode>,
 }
@@ -573,7 +573,7 @@ mod stackable_error_tests {
   }
 }
 
-#[derive(Debug, PartialEq, Eq, PartialOrd, Ord)]
+#[derive(Debug, Clone, PartialEq, Eq, PartialOrd, Ord)]
 pub enum ErrorDetail {
   CannotResolveClass { module_reference: ModuleReference, name: PStr },
   CannotResolveMember { parent: Description, member: PStr },
@@ -825,7 +825,7 @@ pub struct ErrorInIDEFormat {
   pub reference_locs: Vec<Location>,
 }
 
-#[derive(Debug, PartialEq, Eq, PartialOrd, Ord)]
+#[derive(Debug, Clone, PartialEq, Eq, PartialOrd, Ord)]
 pub struct CompileTimeError {
   pub location: Location,
   pub detail: ErrorDetail,
